@@ -134,6 +134,9 @@ def _tlc_cmd():
     return ["tlc"]
 
 
+_TLC_SEQ = 0
+
+
 class TlcResult:
     def __init__(self):
         self.ok = False
@@ -162,7 +165,9 @@ def tlc(ctx, spec, cfg, workers=None, env=None, timeout=1800, extra=(), sub=None
         want_exports=True, simulate=False):
     """Run TLC on spec/<spec>.tla with spec/<cfg>; returns TlcResult. Never raises on a property
     violation (that is data); raises CheckError on tool failure."""
-    sub = sub or ("tlc_%s_%d" % (cfg.replace(".cfg", ""), int(time.time() * 1000) % 100000))
+    global _TLC_SEQ
+    _TLC_SEQ += 1
+    sub = sub or ("tlc_%s_%d_%d_%d" % (cfg.replace(".cfg", ""), os.getpid(), _TLC_SEQ, int(time.time() * 1000) % 100000))
     d = _copy_specs(ctx, sub)
     md = os.path.join(d, "md")
     cmd = ["timeout", str(timeout), "tlc", "-noGenerateSpecTE", "-metadir", md, "-workers", str(workers or "auto"), "-config", cfg] + list(extra) + [spec]
